@@ -209,8 +209,11 @@ def run_case(desc):
             else:
                 # an exception escaped main(): judge against the first model
                 # that expects a failure
-                cand = [m for m in models if m.inaccessible] or models
-                v = judge(cand[0], oc, f'`gemato verify` of {paths!r}')
+                v = None
+                for mdl in models:
+                    v = judge(mdl, oc, f'`gemato verify` of {paths!r}')
+                    if v is None:
+                        break
         if v is not None:
             v.classes = tuple(classes)
             return v
